@@ -194,6 +194,9 @@ struct Session {
     stale: Vec<(String, Vec<u8>)>,
     input: Vec<u8>,
     class: &'static str,
+    /// checked by the implementation-only oracles (no crash, no hang, in step), not replayed by the model: names whose
+    /// staging name exceeds NAME_MAX end the session with an I/O error, which the flat-name model does not have
+    oracle_only: bool,
 }
 
 fn valid_requests(r: &mut Rng, init: &[(String, Vec<u8>)], pool: &[Vec<u8>]) -> Vec<(Request, Vec<u8>)> {
@@ -384,7 +387,31 @@ fn gen_sessions(seed: u64, tier: &str) -> Vec<Session> {
                 stale.push(("b.copia-tmp".to_string(), vec![0x58; 100]));
             }
         }
-        out.push(Session { init, stale, input, class });
+        out.push(Session { init, stale, input, class, oracle_only: false });
+        // one session in eight: well-formed requests on long names made of multi-byte characters (with every ASCII prefix
+        // length below the character width, so that any fixed byte offset falls inside a character of one of them),
+        // around NAME_MAX with and without room for a staging suffix
+        if out.len() % 8 == 0 {
+            let names: Vec<String> = vec!["é".repeat(100), format!("a{}", "é".repeat(110)), "é".repeat(110), "日".repeat(75), format!("a{}", "日".repeat(75)),
+                format!("ab{}", "日".repeat(75)), format!("d/{}", "日".repeat(60)), format!("abc{}", "😀".repeat(55)), "é".repeat(127), format!("x{}", "é".repeat(127))];
+            let mut input = MAGIC.to_vec();
+            input.extend(frame(&Request::Hello { version: VERSION }));
+            for _ in 0..(1 + r.below(3)) {
+                let path = r.pick(&names).clone();
+                match r.below(4) {
+                    0 => input.extend(frame(&Request::Get { path })),
+                    1 => input.extend(frame(&Request::Delete { path, expected: None })),
+                    _ => {
+                        let body = r.pick(&pool).clone();
+                        input.extend(frame(&Request::Put { path, expected: None, len: body.len() as u64, hash: h32(&body) }));
+                        input.extend(&body);
+                    }
+                }
+            }
+            input.extend(frame(&Request::Get { path: "a".into() }));
+            input.extend(frame(&Request::Bye));
+            out.push(Session { init: vec![("a".to_string(), b"A".to_vec())], stale: vec![], input, class: "long-multibyte-names", oracle_only: true });
+        }
     }
     out
 }
@@ -414,7 +441,7 @@ pub fn main_c12(a: Args) -> i32 {
                     }
                 }
             }
-            Session { init, stale, input, class: "replay" }
+            Session { init, stale, input, class: "replay", oracle_only: l.contains(" ORACLE=1") }
         }).collect()
     } else {
         gen_sessions(a.seed, &a.tier)
@@ -465,9 +492,13 @@ pub fn main_c12(a: Args) -> i32 {
         };
         let init = if s.init.is_empty() { "-".to_string() } else { s.init.iter().map(|(p, c)| format!("{}:{}", hex(p.as_bytes()), hex(c))).collect::<Vec<_>>().join(";") };
         let st_field = if s.stale.is_empty() { "-".to_string() } else { s.stale.iter().map(|(p, c)| format!("{}:{}", hex(p.as_bytes()), hex(c))).collect::<Vec<_>>().join(";") };
-        out.line("cases.txt", &format!("{} T={} I={} D={} IN={} ST={}", id, k.table(), init, dec, hex(&s.input), st_field));
+        if s.oracle_only {
+            out.line("cases-oracle.txt", &format!("{} T={} I={} D={} IN={} ST={} ORACLE=1", id, k.table(), init, dec, hex(&s.input), st_field));
+        } else {
+            out.line("cases.txt", &format!("{} T={} I={} D={} IN={} ST={}", id, k.table(), init, dec, hex(&s.input), st_field));
+            out.line("impl.txt", &format!("{} {} R={} F={}", id, exit, if rs.is_empty() { "-".to_string() } else { rs.join(",") }, after));
+        }
         if !s.stale.is_empty() { out.count("sessions_with_leftover_staging_files"); }
-        out.line("impl.txt", &format!("{} {} R={} F={}", id, exit, if rs.is_empty() { "-".to_string() } else { rs.join(",") }, after));
         out.count("sessions");
         out.count(&format!("class_{}", s.class));
         out.count(&format!("exit_{}", exit));
@@ -551,7 +582,13 @@ pub fn main_c12(a: Args) -> i32 {
 
 // ======================================================================== C11
 fn gen_paths(r: &mut Rng, n: usize) -> Vec<String> {
-    let comps: Vec<String> = vec!["..".into(), ".".into(), "".into(), "a".into(), "d".into(), "x".into(), "..a".into(), "a..".into(), "a..b".into(), "...".into(), "n".repeat(255), "m".repeat(300), "é".into(), " ".into(), "-rf".into()];
+    let comps: Vec<String> = vec!["..".into(), ".".into(), "".into(), "a".into(), "d".into(), "x".into(), "..a".into(), "a..".into(), "a..b".into(), "...".into(), "n".repeat(255), "m".repeat(300), "é".into(), " ".into(), "-rf".into(),
+        // long names made of multi-byte characters, with ASCII prefixes of every length below the character width: for
+        // every byte offset one of them has a character straddling it (truncation / slicing at a fixed byte count),
+        // in a length that fits NAME_MAX together with a staging suffix, one that fits only alone, and one that does not fit
+        "é".repeat(60), format!("a{}", "é".repeat(60)), "é".repeat(110), format!("a{}", "é".repeat(110)), "é".repeat(150),
+        "日".repeat(40), format!("a{}", "日".repeat(40)), format!("ab{}", "日".repeat(40)),
+        "日".repeat(75), format!("a{}", "日".repeat(75)), format!("ab{}", "日".repeat(75)), "😀".repeat(30), format!("abc{}", "😀".repeat(55))];
     let mut out: Vec<String> = vec!["".into(), "/".into(), ".".into(), "..".into(), "/etc/passwd".into(), "../outside.txt".into(), "a/../../outside.txt".into(), "./..".into(), "a/..".into(), "d/../../other/f".into(), "z".repeat(5000)];
     while out.len() < n {
         let k = 1 + r.below(4) as usize;
